@@ -144,6 +144,9 @@ def gen_num(r: random.Random, kind: str):
     if kind == 'cnt':
         n = r.randint(0, 4)
         return r.choice([['i', n], ['f', float(n).hex()], ['F', str(n)]])
+    if kind == 'flagged':
+        # a Float that carries flags: the inexact result of rounding a non-dyadic rational
+        return ['Fr', r.choice(['1/3', '1/10', '22/7', '-2/3', '5/7', '-1/9']), r.choice(['FP16', 'FP32'])]
     if kind == 'bit':
         n = r.choice([0, 1])
         return r.choice([['i', n], ['f', float(n).hex()]])
@@ -178,7 +181,7 @@ def gen_list(r: random.Random, lo: int, hi: int, ids: list, allow_special=False)
 
 
 def gen_arg(r: random.Random, kind: str, ids: list):
-    if kind in ('num', 'nz', 'pos', 'num_small', 'cnt', 'idx', 'bit', 'any_num'):
+    if kind in ('num', 'nz', 'pos', 'num_small', 'cnt', 'idx', 'bit', 'any_num', 'flagged'):
         return gen_num(r, kind)
     if kind == 'big':
         return r.choice(BIG)
@@ -276,7 +279,7 @@ def catalogue(ns: str, name: str, sig: list[str]) -> list:
     k = (ns, name)
     if k not in _CATALOGUE:
         rr = random.Random(f'catalogue:{ns}:{name}')
-        _CATALOGUE[k] = [[_coerce(a, _MODES[e % len(_MODES)]) if s_ not in ('cnt', 'idx', 'bit', 'big', 'biglist') else a
+        _CATALOGUE[k] = [[_coerce(a, _MODES[e % len(_MODES)]) if s_ not in ('cnt', 'idx', 'bit', 'big', 'biglist', 'flagged') else a
                           for a, s_ in zip(gen_args(rr, sig), sig)] for e in range(CATALOGUE)]
     return _CATALOGUE[k]
 
